@@ -2,8 +2,15 @@
 
 Queue events: specs/QueueEvents.  Relay/boolean semantics: specs/EventBus (shared with C01), driven
 here with relay/boolean-heavy schedules.
+
+Modes as queue-event handlers (machines/c02q): the start event of a real Mode (with / without use_wait_queue) is posted
+as a queue event any number of times - while the mode is idle, still starting (a handler of its mode_<name>_starting
+queue event holds a wait), active, stopping (a handler of mode_<name>_stopping holds a wait) or stopped again - mixed
+with direct start()/stop() calls and all the other queue-event traffic.  The spec decides which requests the mode
+accepts, which queue events it holds and when they complete.
 """
 import asyncio
+import concurrent.futures
 import random
 
 from lib import tlc, harness
@@ -15,7 +22,10 @@ HIDS = ['h1', 'h2', 'h3', 'h4']
 TRACE_HIDS = '{' + ', '.join('"%s_%d"' % (h, n) for h in HIDS for n in range(1, 14)) + ', "h1", "h2"}'
 
 
-def cfg_text(spec, evs, hids, maxtasks, maxops, extra='', hk='{FALSE}', cond='NoCondSet', cs='{0}'):
+MODE_NAMES = {'wq': 'mw', 'nowq': 'mn'}      # model kind -> mode of machines/c02q
+
+
+def cfg_text(spec, evs, hids, maxtasks, maxops, extra='', hk='{FALSE}', cond='NoCondSet', cs='{0}', kinds='{"none"}'):
     neg = '  CondSet <- %s\n' % cond if not cond.startswith('{') else '  CondSet = %s\n' % cond
     return """SPECIFICATION %s
 CONSTANTS
@@ -26,11 +36,13 @@ CONSTANTS
   MaxOps = %d
   HkSet = %s
 %s  CSet = %s
+  ModeKinds = %s
 %sCHECK_DEADLOCK FALSE
-""" % (spec, evs, hids, maxtasks, maxops, hk, neg, cs, extra)
+""" % (spec, evs, hids, maxtasks, maxops, hk, neg, cs, kinds, extra)
 
 
 MC_INV = 'INVARIANT CallbackOnce\nINVARIANT CallbackAfterAll\nINVARIANT NoOverlap\nINVARIANT PrioOrder\nPROPERTY CallbackAfterHandlers\n'
+MODE_INV = 'INVARIANT StarterAfterStop\nINVARIANT ModeHoldsOnlyStarter\nINVARIANT StarterHeld\nPROPERTY RefusedNoWait\n'
 
 
 def _machine():
@@ -39,12 +51,17 @@ def _machine():
         _H.pop('h', None)
         _H['dirty'] = False
     if 'h' not in _H:
-        _H['h'] = harness.boot('base')
+        _H['h'] = harness.boot('c02q')
     return _H['h']
 
 
 class QRun:
-    def __init__(self, sched, fwd, asyncs, falsers=()):
+    def __init__(self, sched, fwd, asyncs, falsers=(), kind='none', sticky=0):
+        self.kind = kind
+        # sticky: the driver's handlers of the mode's own queue events (starting / stopping) hold a wait even where the
+        # schedule does not ask for one, released at some later step: start requests meet the mode in every state
+        self.sticky = random.Random(sticky) if sticky else None
+        self.stuck = []
         self.falsers = set(falsers)   # handler ids that return False (which must not stop a queue event)
         self.h = _machine()
         self.m = self.h.machine
@@ -59,6 +76,81 @@ class QRun:
         self.gen = {}       # schedule handler id -> number of registrations so far
         self.waits = {}     # (k, h) -> queue object or future
         self.deferred = []
+        # the mode whose start event is "qm" (None: no mode in this run)
+        self.mode = self.m.modes[MODE_NAMES[kind]] if kind != 'none' else None
+        self.mtask = {}     # 'ms' / 'mp' -> task number of the mode's current starting / stopping queue event
+        self.seen_q = []    # QueuedEvents which the mode's start handler was handed
+        self.direct = False
+        self.last_acc = False
+
+    def evname(self, e):
+        """Real name of a model event."""
+        if self.mode is not None:
+            if e == 'qm':
+                return 'vq_start_' + self.mode.name
+            if e == 'ms':
+                return 'mode_%s_starting' % self.mode.name
+            if e == 'mp':
+                return 'mode_%s_stopping' % self.mode.name
+        return 'vq_' + e
+
+    def task_of(self, ev, kwargs):
+        """Number of the queue event a handler of event ev is called for.  The driver's posts carry it (inst); the mode's
+        starting event carries the kwargs of the request which started it and its stopping event none: at most one of
+        each is in flight, numbered when the mode posted it."""
+        if self.mode is not None and ev in ('ms', 'mp'):
+            return self.mtask.get(ev, -1)
+        return kwargs.get('inst', -1)
+
+    def mst(self):
+        """State of the mode, from its public attributes."""
+        mode = self.mode
+        if mode is None:
+            return 'idle'
+        if mode.stopping:
+            return 'stopping'
+        if mode.active:
+            return 'active'
+        return 'starting' if mode.starting else 'idle'
+
+    # ---- calls of Mode.start, reported by drivers/c02_mode.ProbedMode
+    def m_enter(self, mode, kwargs):
+        return bool(mode.starting)
+
+    def m_exit(self, mode, kwargs, was_starting):
+        acc = bool(mode.starting) and not was_starting and not mode.active
+        if acc:
+            # the mode posted its mode_<name>_starting queue event
+            self.ntask += 1
+            self.mtask['ms'] = self.ntask
+        if self.direct:
+            self.last_acc = acc
+            return
+        q = kwargs.get('queue')
+        if q is None or any(q is x for x in self.seen_q):
+            # not called as the handler of a queue event: a start which the mode put off and runs now by itself
+            self.ev.append({'op': 'mdeferred', 'acc': acc})
+            return
+        self.seen_q.append(q)
+        # what the statement talks about: did this handler leave a wait on the queue event it was called for
+        self.ev.append({'op': 'mreq', 'k': kwargs.get('inst', -1), 'acc': acc, 'w': bool(q.waiter)})
+
+    def mstart(self, c):
+        self.direct, self.last_acc = True, False
+        try:
+            self.mode.start(a='p', c=c)
+        finally:
+            self.direct = False
+        self.ev.append({'op': 'mstart', 'c': c, 'acc': self.last_acc})
+
+    def mstop(self):
+        was_stopping = bool(self.mode.stopping)
+        r = bool(self.mode.stop())
+        if r and not was_stopping:
+            # the mode posted its mode_<name>_stopping queue event
+            self.ntask += 1
+            self.mtask['mp'] = self.ntask
+        self.ev.append({'op': 'mstop', 'r': r})
 
     def program(self, k, hid):
         hid = hid.split('_')[0]
@@ -68,7 +160,7 @@ class QRun:
             self.consumed.add(i)
             j = i + 1
             prog = []
-            while j < len(self.sched) and self.sched[j]['op'] in ('wait', 'clear', 'qpost', 'qadd', 'qremove'):
+            while j < len(self.sched) and self.sched[j]['op'] in ('wait', 'clear', 'qpost', 'qadd', 'qremove', 'mstop', 'mstart'):
                 s2 = self.sched[j]
                 if s2['op'] == 'clear' and not (s2['k'] == k and s2['h'] == hid):
                     break
@@ -90,22 +182,22 @@ class QRun:
         kw = {'a': 'p', 'c': c}
         if queue is not None:
             kw['queue'] = queue
-        self.evm.post_queue('vq_' + e, callback=self.mk_cb(k), inst=k, **kw)
+        self.evm.post_queue(self.evname(e), callback=self.mk_cb(k), inst=k, **kw)
 
     def mk_cb(self, k):
         def cb(**kwargs):
             self.ev.append({'op': 'qcallback', 'k': k})
         return cb
 
-    def mk_handler(self, hid):
+    def mk_handler(self, hid, ev):
         def hnd(queue, **kwargs):
-            k = kwargs.get('inst', -1)
+            k = self.task_of(ev, kwargs)
             self.ev.append({'op': 'qinvoke', 'k': k, 'h': hid, 'a': str(kwargs.get('a', 'MISSING'))})
-            waited = False
+            waited = did_wait = False
             for s in self.program(k, hid):
                 if s['op'] == 'wait':
                     queue.wait()
-                    waited = True
+                    waited = did_wait = True
                     self.waits[(k, hid)] = queue
                     self.ev.append({'op': 'wait', 'k': k, 'h': hid})
                 elif s['op'] == 'clear':
@@ -116,15 +208,20 @@ class QRun:
                     self.post(s['ev'], queue if (self.fwd and waited) else None, s.get('c', 0))
                 else:
                     self.env(s)
+            if self.sticky and ev in ('ms', 'mp') and not did_wait and self.sticky.random() < 0.7:
+                queue.wait()
+                self.waits[(k, hid)] = queue
+                self.stuck.append((k, hid))
+                self.ev.append({'op': 'wait', 'k': k, 'h': hid})
             self.ev.append({'op': 'qret'})
             if hid.split('_')[0] in self.falsers:
                 return False
             return None
         return hnd
 
-    def mk_async(self, hid):
+    def mk_async(self, hid, ev):
         async def coro(**kwargs):
-            k = kwargs.get('inst', -1)
+            k = self.task_of(ev, kwargs)
             self.ev.append({'op': 'qinvoke', 'k': k, 'h': hid, 'a': str(kwargs.get('a', 'MISSING'))})
             # add_async_handler registered the wait before this coroutine started
             self.ev.append({'op': 'wait', 'k': k, 'h': hid})
@@ -171,12 +268,13 @@ class QRun:
             self.gen[s['h']] = self.gen.get(s['h'], 0) + 1
             rid = self.cur_id(s['h'])       # every registration gets a fresh id (as the real uuid keys are)
             hk, cond = bool(s.get('hk', False)), s.get('cond', -1)
-            name = 'vq_' + s['ev'] + ('{c==%d}' % cond if cond != -1 else '')
+            name = self.evname(s['ev']) + ('{c==%d}' % cond if cond != -1 else '')
             kw = {'a': 'h'} if hk else {}
+            # (model priority 2 is the priority of the modes' start handlers)
             if s['h'] in self.asyncs:
-                key = self.evm.add_async_handler(name, self.mk_async(rid), priority=s['prio'], **kw)
+                key = self.evm.add_async_handler(name, self.mk_async(rid, s['ev']), priority=100 * s['prio'], **kw)
             else:
-                key = self.evm.add_handler(name, self.mk_handler(rid), priority=s['prio'], **kw)
+                key = self.evm.add_handler(name, self.mk_handler(rid, s['ev']), priority=100 * s['prio'], **kw)
             self.keys[s['h']] = key
             self.ev.append({'op': 'qadd', 'h': rid, 'ev': s['ev'], 'prio': s['prio'], 'hk': hk, 'cond': cond})
         elif op == 'qremove':
@@ -184,7 +282,14 @@ class QRun:
                 self.evm.remove_handler_by_key(self.keys.pop(s['h']))
                 self.ev.append({'op': 'qremove', 'h': self.cur_id(s['h'])})
         elif op == 'qpost':
-            self.post(s['ev'], None, s.get('c', 0))
+            if not (self.mode is not None and s['ev'] in ('ms', 'mp')):
+                self.post(s['ev'], None, s.get('c', 0))
+        elif op == 'mstart':
+            if self.mode is not None:
+                self.mstart(s.get('c', 0))
+        elif op == 'mstop':
+            if self.mode is not None:
+                self.mstop()
         elif op == 'clear':
             hit = [w for w in self.waits if w[0] == s['k'] and w[1].split('_')[0] == s['h']]
             if hit:
@@ -193,13 +298,24 @@ class QRun:
                 self.deferred.append((s['k'], s['h']))
 
     def settle(self):
-        for _ in range(4):
-            self.h.advance_time_and_run(0)
+        """Run the loop (no time passes) until nothing moves any more."""
+        for _ in range(10):
+            n, st = len(self.ev), self.mst()
+            for _ in range(4):
+                self.h.advance_time_and_run(0)
+            if n == len(self.ev) and st == self.mst() and not self.evm.event_queue and not self.evm.callback_queue:
+                break
+
+    def rest(self):
+        """The loop has run dry: every queue event must be complete or held by an outstanding wait."""
+        self.ev.append({'op': 'rest', 'mst': self.mst()})
 
     def run(self):
+        if self.mode is not None:
+            self.mode.probe = self
         try:
             for i, s in enumerate(self.sched):
-                if i in self.consumed or s['op'] not in ('qadd', 'qremove', 'qpost', 'clear'):
+                if i in self.consumed or s['op'] not in ('qadd', 'qremove', 'qpost', 'clear', 'mstop', 'mstart'):
                     continue
                 self.consumed.add(i)
                 self.env(s)
@@ -210,15 +326,27 @@ class QRun:
                         self.do_clear(*hit[0])
                         self.deferred.remove(d)
                         self.settle()
-            # the environment eventually clears every wait it was asked to hold
+                self.rest()
+                self.stuck = [w for w in self.stuck if w in self.waits]
+                if self.stuck and self.sticky.random() < 0.35:
+                    self.do_clear(*self.stuck.pop(0))
+                    self.settle()
+                    self.rest()
+            # the environment eventually clears every wait it was asked to hold, and stops the mode
             guard = 0
-            while self.waits and guard < 50:
+            while guard < 80:
                 guard += 1
-                k, hid = sorted(self.waits)[0]
-                self.do_clear(k, hid)
+                if self.waits:
+                    k, hid = sorted(self.waits)[0]
+                    self.do_clear(k, hid)
+                elif self.mode is not None and self.mode.active and not self.mode.stopping:
+                    self.mstop()
+                else:
+                    break
                 self.settle()
+                self.rest()
             self.settle()
-            self.ev.append({'op': 'rest'})
+            self.rest()
         finally:
             for k in list(self.keys.values()):
                 self.evm.remove_handler_by_key(k)
@@ -228,10 +356,20 @@ class QRun:
                     w.set_result(None) if isinstance(w, asyncio.Future) else w.clear()
                 except Exception:  # pylint: disable=broad-except
                     pass
+            if self.mode is not None:
+                self.mode.probe = None
+                try:
+                    if self.mode.active:
+                        self.mode.stop()
+                        self.settle()
+                except Exception:  # pylint: disable=broad-except
+                    _H['dirty'] = True
+                if self.mst() != 'idle':
+                    _H['dirty'] = True
             # a wedged dispatcher task must not leak into the next schedule
             if self.evm._queue_tasks:
                 _H['dirty'] = True
-            else:
+            elif not _H.get('dirty'):
                 self.settle()
         return self.ev
 
@@ -239,88 +377,19 @@ class QRun:
 def exec_schedule(job):
     sched, fwd, asyncs = job[0], job[1], job[2]
     falsers = job[3] if len(job) > 3 else []
+    kind = job[4] if len(job) > 4 else 'none'
+    sticky = job[5] if len(job) > 5 else 0
+    meta = {'kind': kind, '_fwd': fwd, '_async': list(asyncs), '_false': list(falsers), '_sticky': sticky}
+    q = None
     try:
-        return {'ev': QRun(sched, fwd, asyncs, falsers).run(), '_fwd': fwd, '_async': list(asyncs), '_false': list(falsers)}
+        q = QRun(sched, fwd, asyncs, falsers, kind, sticky)
+        return dict(meta, ev=q.run())
     except Exception as ex:  # pylint: disable=broad-except
         import traceback
         _H['dirty'] = True
-        return {'ev': [{'op': 'crash', 'what': repr(ex)[:300]}], '_tb': traceback.format_exc()[-2000:]}
-
-
-def exec_mode_scenario(job):
-    """A use_wait_queue mode started from a queue event while a handler listens on its starting event."""
-    variant = job
-    h = _machine()
-    m = h.machine
-    evm = m.events
-    ev = []
-    mode = m.modes['m2']
-
-    def settle():
-        for _ in range(4):
-            h.advance_time_and_run(0)
-    keys = []
-    try:
-        ev.append({'op': 'qadd', 'h': 'h1', 'ev': 'start_m2', 'prio': 2})   # the mode's own start handler (Mode.start)
-        if variant != 'no_listener':
-            def listener(queue, **kwargs):
-                ev.append({'op': 'qinvoke', 'k': 2, 'h': 'h2'})
-                ev.append({'op': 'qret'})
-            keys.append(evm.add_handler('mode_m2_starting', listener, priority=1))
-            ev.append({'op': 'qadd', 'h': 'h2', 'ev': 'm2_starting', 'prio': 1})
-
-        def cb(**kwargs):
-            ev.append({'op': 'qcallback', 'k': 1})
-        ev.append({'op': 'qpost', 'ev': 'start_m2'})
-        evm.post_queue('vq_start_m2', callback=cb)
-        # Mode.start runs as handler h1 of task 1: registers the wait, posts the inner queue event
-        ev.append({'op': 'qinvoke', 'k': 1, 'h': 'h1'})
-        ev.append({'op': 'wait', 'k': 1, 'h': 'h1'})
-        ev.append({'op': 'qpost', 'ev': 'm2_starting'})
-        ev.append({'op': 'qret'})
-        n0 = len(ev)
-        settle()
-        h.advance_time_and_run(0.01)
-        # inner task 2 (mode_m2_starting) must complete: observable as the mode becoming active
-        inner = ev[n0:]
-        del ev[n0:]
-        ev.extend([e for e in inner if e['op'] != 'qcallback'])
-        if mode.active:
-            ev.append({'op': 'qcallback', 'k': 2})
-        ev.extend([e for e in inner if e['op'] == 'qcallback'])
-        ev.append({'op': 'rest'})
-        if mode.active:
-            stopped = mode.stop()
-            if stopped:
-                ev.append({'op': 'clear', 'k': 1, 'h': 'h1'})
-            settle()
-            h.advance_time_and_run(0.01)
-            ev.append({'op': 'rest'})
-    finally:
-        for k in keys:
-            evm.remove_handler_by_key(k)
-        if mode.active:
-            mode.stop()
-        if evm._queue_tasks or mode._starting:
-            _H['dirty'] = True
-        else:
-            settle()
-    # the clear happens inside Mode._stopped before the outer callback: order the log accordingly
-    out = []
-    pend_cb = None
-    for e in ev:
-        if e['op'] == 'qcallback' and e['k'] == 1 and not any(x['op'] == 'clear' for x in out):
-            pend_cb = e
-            continue
-        out.append(e)
-        if e['op'] == 'clear' and pend_cb:
-            out.append(pend_cb)
-            pend_cb = None
-    if pend_cb:
-        out.append(pend_cb)
-    dflt = {'qadd': {'hk': False, 'cond': -1}, 'qpost': {'c': 0}, 'qinvoke': {'a': 'p'}}
-    out = [dict(dflt.get(e['op'], {}), **e) for e in out]       # kwargs are not part of this scenario
-    return {'ev': out, '_variant': variant}
+        # what was observed up to the exception stays part of the trace
+        return dict(meta, ev=(q.ev if q is not None else []) + [{'op': 'crash', 'what': repr(ex)[:300]}],
+                    _tb=traceback.format_exc()[-2000:])
 
 
 def handmade():
@@ -347,61 +416,174 @@ def handmade():
     ]
 
 
+def handmade_mode():
+    """Start requests of a mode posted as queue events ("qm"), refused ones in every placement, and the stop.
+    Task numbers: the driver's posts and the mode's own queue events ("ms" starting, "mp" stopping) in posting order."""
+    A = lambda h, e, p: {'op': 'qadd', 'h': h, 'ev': e, 'prio': p}
+    P = lambda e: {'op': 'qpost', 'ev': e}
+    I = lambda k, h: {'op': 'qinvoke', 'k': k, 'h': h}
+    W = lambda k, h: {'op': 'wait', 'k': k, 'h': h}
+    C = lambda k, h: {'op': 'clear', 'k': k, 'h': h}
+    R = {'op': 'qret'}
+    STOP = {'op': 'mstop'}
+    START = {'op': 'mstart', 'c': 0}
+    return [
+        # one request, one stop; nobody listens to the mode's own queue events
+        [P('qm'), STOP],
+        # a handler on the starting event (does not wait)
+        [A('h1', 'ms', 1), P('qm'), I(2, 'h1'), R, STOP],
+        # second request while the mode is still starting: a handler of its starting event holds a wait
+        [A('h1', 'ms', 1), P('qm'), I(2, 'h1'), W(2, 'h1'), R, P('qm'), C(2, 'h1'), STOP],
+        # second (and third) request while the mode is active
+        [P('qm'), P('qm'), P('qm'), STOP],
+        # second request while the mode is stopping: a handler of its stopping event holds a wait
+        [A('h1', 'mp', 1), P('qm'), STOP, I(3, 'h1'), W(3, 'h1'), R, P('qm'), C(3, 'h1')],
+        # second request after the stop: the mode starts again and holds that one
+        [P('qm'), STOP, P('qm'), P('qm'), STOP],
+        # requests in all placements in one run, handlers before and after the mode's on the start event itself
+        [A('h1', 'ms', 1), A('h2', 'qm', 3), A('h3', 'qm', 1), P('qm'), I(1, 'h2'), R, I(2, 'h1'), W(2, 'h1'), R,
+         P('qm'), I(3, 'h2'), R, I(3, 'h3'), R, C(2, 'h1'), P('qm'), I(4, 'h2'), R, I(4, 'h3'), R, STOP, I(1, 'h3'), R,
+         P('qm'), I(6, 'h2'), R, I(7, 'h1'), R, STOP, I(6, 'h3'), R],
+        # a waiting handler above the mode's: the LATER request reaches the mode first and is the one it holds
+        [A('h1', 'qm', 3), P('qm'), I(1, 'h1'), W(1, 'h1'), R, P('qm'), I(2, 'h1'), R, C(1, 'h1'), STOP],
+        # started directly (nothing to hold), then requested by queue events; a stop while it is starting is ignored
+        [A('h1', 'ms', 1), START, I(1, 'h1'), W(1, 'h1'), R, P('qm'), STOP, C(1, 'h1'), P('qm'), STOP, START, P('qm')],
+        # stop and the next request from inside handlers
+        [A('h1', 'q1', 1), A('h2', 'qm', 3), P('qm'), I(1, 'h2'), R, P('q1'), I(3, 'h1'), STOP, P('qm'), R, I(5, 'h2'), R],
+        # a request which arrives after the mode's stopping event has completed but before the mode has cleaned up (its
+        # dispatcher was created in the same batch as the stopping event's): not held, the mode starts afterwards by itself
+        [A('h2', 'mp', 1), A('h1', 'qm', 3), START, P('qm'), I(2, 'h1'), STOP, P('qm'), R, I(3, 'h2'), R, I(4, 'h1'), R, P('qm'), STOP],
+        [A('h2', 'mp', 1), A('h1', 'qm', 3), P('qm'), I(1, 'h1'), R, P('qm'), I(3, 'h1'), STOP, P('qm'), START, R, I(4, 'h2'), R,
+         I(5, 'h1'), R, STOP],
+        # the refused request's own handler waits: it completes when THAT wait is cleared, not when the mode stops
+        [A('h1', 'qm', 1), P('qm'), P('qm'), I(3, 'h1'), W(3, 'h1'), R, STOP, I(1, 'h1'), W(1, 'h1'), R, C(1, 'h1'), C(3, 'h1')],
+    ]
+
+
+def _sig(prefix, job, fe, pe):
+    name = lambda e: (e or {}).get('op') if e else None
+    if len(job) > 4 and job[4] != 'none':
+        def nm(e, dflt):
+            if not e:
+                return dflt
+            if e.get('op') == 'mreq':
+                return 'mreq(%s,%s)' % ('accepted' if e.get('acc') else 'refused', 'waits' if e.get('w') else 'no-wait')
+            if e.get('op') == 'rest':
+                return 'rest(mode-%s)' % e.get('mst')
+            return e.get('op')
+        return prefix + ':mode-%s:%s-after-%s%s' % (job[4], nm(fe, 'end'), nm(pe, 'start'), ':fwd' if job[1] else '')
+    return prefix + ':queue:%s-after-%s%s' % (name(fe) or 'end', name(pe) or 'start', ':fwd' if job[1] else '')
+
+
+def _what(job, info, fe, pe):
+    t = 'queue event execution not explained by QueueEvents spec at line %s: %s (prev %s)' % (info.get('line'), fe, pe)
+    if fe and fe.get('op') == 'mreq':
+        t += '; start request (queue event %s) of a %s mode: the mode %s it and %s on that queue event' % (
+            fe.get('k'), 'use_wait_queue' if job[4] == 'wq' else 'plain', 'accepted' if fe.get('acc') else 'refused',
+            'left a wait' if fe.get('w') else 'left no wait')
+    elif fe and fe.get('op') == 'rest' and len(job) > 4 and job[4] != 'none':
+        t += '; at rest (mode %s) some queue event is neither complete nor held by an outstanding wait, or the mode is ' \
+             'not in the state its queue events imply' % fe.get('mst')
+    return t
+
+
 def queue_traces(ctx, wd, check_args, prefix, num, depth, with_modes=True):
     """Queue-event schedules from the spec executed on the real EventManager and validated by QueueEventsTrace.
-    check_args: also judge the kwarg a handler sees (handler-registered over posted) - part of C01's statement."""
+    check_args: also judge the kwarg a handler sees (handler-registered over posted) - part of C01's statement.
+    with_modes: also schedules with a real mode (with / without use_wait_queue) listening on the start event "qm"."""
     with open(wd + '/Gen.cfg', 'w') as f:
         f.write(cfg_text('Spec', '{"q1", "q2", "q3"}', '{"h1", "h2", "h3", "h4"}', 6, 12, '', '{TRUE, FALSE}', 'FullCondSet', '{0, 1}'))
-    behs, _ = tlc.simulate(wd, 'QueueEvents', 'Gen.cfg', num=num, depth=depth,
-                           seed=ctx.seed)
+    nmode = (num * 3) // 7 if with_modes else 0
+    wdm = tlc.prepare(ctx.scratch, 'QueueEvents', wd.rstrip('/').split('/')[-1] + '_genmode')
+    with open(wdm + '/GenMode.cfg', 'w') as f:
+        f.write(cfg_text('Spec', '{"qm", "ms", "mp"}', '{"h1", "h2", "h3", "h4"}', 8, 14, '', '{FALSE}', 'FullCondSet',
+                         '{0, 1}', '{"wq", "nowq"}'))
+    with concurrent.futures.ThreadPoolExecutor(2) as ex:
+        f1 = ex.submit(tlc.simulate, wd, 'QueueEvents', 'Gen.cfg', num=num, depth=depth, seed=ctx.seed)
+        f2 = ex.submit(tlc.simulate, wdm, 'QueueEvents', 'GenMode.cfg', num=nmode, depth=depth + 20, seed=ctx.seed + 5) if nmode else None
+        behs, _ = f1.result()
+        mbehs = f2.result()[0] if f2 else []
     rnd = random.Random(ctx.seed)
     jobs = []
     for b in behs:
         asyncs = [x for x in HIDS if rnd.random() < 0.25]
         falsers = [x for x in HIDS if x not in asyncs and rnd.random() < 0.3]
-        jobs.append(([s['act'] for s in b], rnd.random() < 0.5, asyncs, falsers))
+        jobs.append(([s['act'] for s in b], rnd.random() < 0.5, asyncs, falsers, 'none'))
     for s in handmade():
-        jobs += [(s, False, [], []), (s, True, [], ['h1']), (s, False, ['h1', 'h3'], ['h2']), (s, True, ['h2'], ['h1', 'h3'])]
+        jobs += [(s, False, [], [], 'none'), (s, True, [], ['h1'], 'none'), (s, False, ['h1', 'h3'], ['h2'], 'none'),
+                 (s, True, ['h2'], ['h1', 'h3'], 'none')]
+    nplain = len(jobs)
+    for b in mbehs:
+        asyncs = [x for x in HIDS if rnd.random() < 0.2]
+        falsers = [x for x in HIDS if x not in asyncs and rnd.random() < 0.2]
+        sticky = rnd.randrange(1, 10 ** 6) if rnd.random() < 0.5 else 0
+        sched = [s['act'] for s in b]
+        if sticky:
+            # listeners on the mode's own queue events from the beginning
+            sched = [{'op': 'qadd', 'h': 'h4', 'ev': 'ms', 'prio': 1}, {'op': 'qadd', 'h': 'h3', 'ev': 'mp', 'prio': 1}] + sched
+        jobs.append((sched, rnd.random() < 0.5, [x for x in asyncs if not (sticky and x in ('h3', 'h4'))], falsers, b[0]['md']['kind'], sticky))
+    if with_modes:
+        for s in handmade_mode():
+            jobs += [(s, False, [], [], 'wq'), (s, True, [], ['h1'], 'wq'), (s, False, ['h1'], ['h2'], 'wq'), (s, False, [], [], 'nowq'),
+                     (s, True, ['h2'], ['h1', 'h3'], 'nowq')]
     traces = harness.pmap(exec_schedule, jobs, chunk=8)
-    mjobs = ['listener', 'no_listener'] if with_modes else []
-    mtraces = [exec_mode_scenario(j) for j in mjobs]
-    all_traces = traces + mtraces
     with open(wd + '/Trace.cfg', 'w') as f:
-        f.write(cfg_text('TSpec', '{}', TRACE_HIDS, 10 ** 6, 10 ** 6, '  CheckArgs = %s\nINVARIANT Reporter\n' % ('TRUE' if check_args else 'FALSE'), '{}', '{}', '{}'))
-    v = tlc.validate_traces(wd, 'QueueEventsTrace', 'Trace.cfg', all_traces)
-    ctx.add_trace_verdict('QueueEventsTrace', v, len(all_traces))
+        f.write(cfg_text('TSpec', '{}', TRACE_HIDS, 10 ** 6, 10 ** 6, '  CheckArgs = %s\nINVARIANT Reporter\n' % ('TRUE' if check_args else 'FALSE'), '{}', '{}', '{}',
+                         '{"none", "wq", "nowq"}'))
+    v = tlc.validate_traces(wd, 'QueueEventsTrace', 'Trace.cfg', traces, batch=1200 if ctx.quick else 400)
+    ctx.add_trace_verdict('QueueEventsTrace', v, len(traces))
     ctx.sample({'kind': 'queue-event-trace', 'trace': traces[0]['ev'][:16]})
-    if mtraces:
-        ctx.sample({'kind': 'use_wait_queue mode started from a queue event, listener on mode_m2_starting', 'trace': mtraces[0]['ev']})
-    tlc.finish_diagnosis(wd, 'QueueEventsTrace', 'Trace.cfg', all_traces, v)
+    if with_modes:
+        nreq = sum(1 for t in traces for e in t['ev'] if e['op'] == 'mreq')
+        nref = sum(1 for t in traces for e in t['ev'] if e['op'] == 'mreq' and not e['acc'])
+        ctx.coverage.setdefault('mode_start_requests', {}).update({'traces_with_mode': len(jobs) - nplain, 'requests': nreq, 'refused': nref})
+        ctx.sample({'kind': 'use_wait_queue mode: second start request (queue event) while the mode is still starting, then stop',
+                    'trace': traces[nplain + len(mbehs) + 5 * 2]['ev']})
+    tlc.finish_diagnosis(wd, 'QueueEventsTrace', 'Trace.cfg', traces, v)
     for i, info in sorted(v.rejected.items()):
         if info.get('line') is None:
             continue
         fe = info.get('failing_event') or {}
         pe = info.get('prev_event') or {}
-        if i >= len(traces):
-            sig = prefix + ':mode-wait-queue:%s' % fe.get('op', 'end')
-            rp = {'kind': 'mode', 'variant': mjobs[i - len(traces)], 'trace': all_traces[i], 'info': info}
-        else:
-            sig = prefix + ':queue:%s-after-%s%s' % (fe.get('op', 'end'), pe.get('op', 'start'), ':fwd' if jobs[i][1] else '')
-            rp = {'kind': 'queue', 'job': list(jobs[i]), 'trace': all_traces[i], 'info': info}
-        ctx.violation(sig, 'queue event execution not explained by QueueEvents spec at line %s: %s (prev %s)' % (
-            info.get('line'), fe, pe), rp)
+        rp = {'kind': 'queue', 'job': list(jobs[i]), 'trace': traces[i], 'info': info}
+        ctx.violation(_sig(prefix, jobs[i], fe, pe), _what(jobs[i], info, fe, pe), rp)
 
 
 def run(ctx):
     wd = tlc.prepare(ctx.scratch, 'QueueEvents', 'queueevents')
     evs = '{"q1"}' if ctx.quick else '{"q1", "q2"}'
+    p12 = lambda t: t.replace('Prio = {1, 2, 3}', 'Prio = {1, 2}')
     with open(wd + '/MC.cfg', 'w') as f:
-        f.write(cfg_text('MCSpec', evs, '{"h1", "h2"}', 2, 4, MC_INV).replace('Prio = {1, 2, 3}', 'Prio = {1, 2}'))
-    r = tlc.expect_ok(tlc.check(wd, 'QueueEventsMC', 'MC.cfg', timeout=3000), 'QueueEvents design check')
-    ctx.add_tlc('QueueEventsMC', r, {'Ev': evs, 'Hid': 2, 'MaxTasks': 2, 'MaxOps': 4})
+        f.write(p12(cfg_text('MCSpec', evs, '{"h1", "h2"}', 2, 4, MC_INV)))
     with open(wd + '/Live.cfg', 'w') as f:
-        f.write(cfg_text('LiveSpec', '{"q1", "q2"}', '{"h1", "h2"}', 2, 4, 'PROPERTY AllComplete\n')
-                .replace('Prio = {1, 2, 3}', 'Prio = {1, 2}'))
-    r = tlc.expect_ok(tlc.check(wd, 'QueueEvents', 'Live.cfg', timeout=1200), 'QueueEvents liveness check')
+        f.write(p12(cfg_text('LiveSpec', '{"q1", "q2"}', '{"h1", "h2"}', 2, 4, 'PROPERTY AllComplete\n')))
+    # a mode on the start event "qm": one other handler (on the start event or on the mode's starting event, above or
+    # below the mode's), up to MaxOps requests/handlers/direct starts, any number of effective stops
+    mops = 3
+    mkinds = '{"wq"}' if ctx.quick else '{"wq", "nowq"}'
+    p13 = lambda t: t.replace('Prio = {1, 2, 3}', 'Prio = {1}' if ctx.quick else 'Prio = {1, 3}')
+    with open(wd + '/MCMode.cfg', 'w') as f:
+        f.write(p13(cfg_text('MCSpec', '{"qm", "ms"}', '{"h1"}', 2, mops, MC_INV + MODE_INV, kinds=mkinds)))
+    with open(wd + '/LiveMode.cfg', 'w') as f:
+        f.write(p13(cfg_text('LiveSpec', '{"qm", "ms"}', '{"h1"}', 2, 2 if ctx.quick else 3, 'PROPERTY AllComplete\n', kinds='{"wq"}')))
+    # four independent small models: checked side by side
+    with concurrent.futures.ThreadPoolExecutor(4) as ex:
+        fs = [ex.submit(tlc.check, wd, 'QueueEventsMC', 'MC.cfg', workers=8, timeout=3000),
+              ex.submit(tlc.check, wd, 'QueueEvents', 'Live.cfg', workers=4, timeout=1200),
+              ex.submit(tlc.check, wd, 'QueueEventsMC', 'MCMode.cfg', workers=4, timeout=3000),
+              ex.submit(tlc.check, wd, 'QueueEvents', 'LiveMode.cfg', workers=4, timeout=1200)]
+        rs = [x.result() for x in fs]
+    r = tlc.expect_ok(rs[0], 'QueueEvents design check')
+    ctx.add_tlc('QueueEventsMC', r, {'Ev': evs, 'Hid': 2, 'MaxTasks': 2, 'MaxOps': 4})
+    r = tlc.expect_ok(rs[1], 'QueueEvents liveness check')
     ctx.add_tlc('QueueEvents liveness (AllComplete under weak fairness)', r)
-    ctx.coverage['monitors'] += ['CallbackOnce', 'CallbackAfterAll', 'NoOverlap', 'PrioOrder', 'AllComplete(liveness)', 'Rest']
+    r = tlc.expect_ok(rs[2], 'QueueEvents design check with a mode on the start event')
+    ctx.add_tlc('QueueEventsMC (mode start requests)', r, {'Ev': '{"qm", "ms"}', 'Hid': 1, 'MaxTasks': 2, 'MaxOps': mops, 'ModeKinds': mkinds})
+    r = tlc.expect_ok(rs[3], 'QueueEvents liveness check with a mode')
+    ctx.add_tlc('QueueEvents liveness with a use_wait_queue mode (AllComplete: weak fairness, an active mode is eventually stopped)', r)
+    ctx.coverage['monitors'] += ['CallbackOnce', 'CallbackAfterAll', 'NoOverlap', 'PrioOrder', 'AllComplete(liveness)', 'Rest',
+                                 'StarterAfterStop', 'ModeHoldsOnlyStarter', 'StarterHeld', 'RefusedNoWait',
+                                 'trace: mreq.acc/w, mstop.r, rest.mst equal the model\'s']
     queue_traces(ctx, wd, False, 'C02', 350 if ctx.quick else 5000, 50 if ctx.quick else 80)
     # ---- relay / boolean events through the EventBus spec
     rnd = random.Random(ctx.seed + 11)
@@ -430,20 +612,27 @@ def run(ctx):
                           info.get('line'), fe, pe), {'kind': 'bus', 'job': list(jobs2[i]), 'trace': tr2[i], 'info': info})
     ctx.assumptions += ['every wait the schedule registers is eventually cleared by the driver (environment fairness)',
                         'relay/boolean traces are validated with the recorded C01 deviation FastPathDrop enabled']
+    from drivers import c02_suite
+    c02_suite.suite_traces(ctx)
 
 
 def replay(ctx, data):
     d = data['replay']
+    if d['kind'] == 'suite':
+        from drivers import c02_suite
+        return c02_suite.suite_traces(ctx, modules=[d['src'].split('::')[0].split('/')[-1][:-3]])
     if d['kind'] == 'queue':
         tr = exec_schedule(tuple(d['job']))
     elif d['kind'] == 'mode':
-        tr = exec_mode_scenario(d['variant'])
+        # (recorded by an earlier version of this driver)
+        tr = exec_schedule((handmade_mode()[1 if d.get('variant') == 'listener' else 0], False, [], [], 'wq'))
     else:
         return c01.replay(ctx, data)
     print('replay trace:', tr['ev'])
     wd = tlc.prepare(ctx.scratch, 'QueueEvents', 'queueevents')
     with open(wd + '/Trace.cfg', 'w') as f:
-        f.write(cfg_text('TSpec', '{}', TRACE_HIDS, 10 ** 6, 10 ** 6, '  CheckArgs = %s\nINVARIANT Reporter\n' % ('TRUE' if data['sig'].startswith('C01') else 'FALSE'), '{}', '{}', '{}'))
+        f.write(cfg_text('TSpec', '{}', TRACE_HIDS, 10 ** 6, 10 ** 6, '  CheckArgs = %s\nINVARIANT Reporter\n' % ('TRUE' if data['sig'].startswith('C01') else 'FALSE'), '{}', '{}', '{}',
+                         '{"none", "wq", "nowq"}'))
     v = tlc.validate_traces(wd, 'QueueEventsTrace', 'Trace.cfg', [tr])
     for i, info in v.rejected.items():
         ctx.violation(data['sig'], 'replayed: %s' % info, d)
